@@ -424,6 +424,9 @@ def gen_cases(tier, rng):
     rows += [[], [""], ["", ""], ["", "", ""]]
     for i in range(0, len(rows), B):
         cases.append({"op": "c18_render", "rows": rows[i:i + B], "_n": i})
+    # ---- ExeTera's own record writer (fixes/D30_NC18a: dataframe._csv_record) vs Export.csvRecord, and both readers on its output
+    for i in range(0, len(rows), B):
+        cases.append({"op": "c18_record", "rows": rows[i:i + B], "_n": i})
     # ---- seeded random ------------------------------------------------------------------------------------------
     R = 1500 if quick else 25000
     for _ in range(R):
@@ -497,6 +500,8 @@ def gen_cases(tier, rng):
                 pc["cols"][-1]["data"] = pc["cols"][-1]["data"][:n - 1]
             if rng.random() < 0.03:
                 pc["cols"] = []
+                if pc["rf"].get("src") == "own":
+                    pc["rf"] = {"kind": "field", "src": "mem", "data": fvec or []}
             cases.append(pc)
     return cases
 
@@ -507,7 +512,7 @@ def gen_cases(tier, rng):
 
 def to_model(case):
     op = case["op"]
-    if op in ("c18_render", "c18_parse"):
+    if op in ("c18_render", "c18_parse", "c18_record"):
         return {k: v for k, v in case.items() if not k.startswith("_")}
     cols = [{"name": c["name"], "data": col_texts(c)} for c in case["cols"]]
     cf = case["cf"]
@@ -601,6 +606,14 @@ def impl(case):
     op = case["op"]
     if op == "c18_render":
         return {"text": py_render(case["rows"])}
+    if op == "c18_record":
+        import warnings
+        warnings.simplefilter("ignore")
+        from exetera.core import dataframe as _dfm
+        rec = getattr(_dfm, "_csv_record", None)
+        if rec is None:
+            return {"skip": "this tree writes its records with csv.writer (no dataframe._csv_record)"}
+        return {"text": "".join(rec(r) for r in case["rows"])}
     if op == "c18_parse":
         out = []
         for t in case["texts"]:
@@ -802,6 +815,17 @@ def check_spec(case, io_, mode):
         return None if got is None or got == want else "csv.reader does not recover what csv.writer wrote"
     if op == "c18_parse":
         return None
+    if op == "c18_record":
+        if "skip" in io_:
+            return None
+        if "err" in io_:
+            return f"_csv_record raised {io_['err']}"
+        want = [list(r) for r in case["rows"]]
+        if std_parse(io_["text"]) != want:
+            return "csv.reader does not recover what _csv_record wrote"
+        if [list(r) for r in csv.reader(io.StringIO(io_["text"], newline=""), skipinitialspace=True)] != want:
+            return "a reader that skips initial blanks does not recover what _csv_record wrote"
+        return None
     if op in ("c18_to_csv", "c18_to_csv_env"):
         exp = expected_csv(case)
         if exp is None:
@@ -922,6 +946,17 @@ def compare(case, io_, mo, mode):
                 #                 property failures are reported through check_spec / match_finding as KNOWN-FINDING
             why += "  [impl equals the AS-FOUND model variant: fix NC18b is not applied]"
         return why
+    if op == "c18_record" and "skip" in io_:
+        return None
+    if op in ("c18_to_csv", "c18_to_csv_env"):
+        why = compare_csv(io_, mo)
+        af = mo.get("as_found")
+        if why and af is not None and compare_csv(io_, af) is None:
+            if finding_open("D30") or finding_open("NC18a"):
+                return None     # DESIGN 1.3: a tree that writes its records with csv.writer matches the as-found variant; while the
+                #                 findings are open its property failures are reported through check_spec / match_finding
+            why += "  [impl equals the AS-FOUND model variant (csv.writer): fix D30_NC18a is not applied]"
+        return why
     if "err" in io_ and "err" in mo:
         return None if io_["err"] == mo["err"] else f"errors differ: impl {io_['err']} ({io_.get('msg', '')[:80]}) model {mo['err']}"
     if "err" in io_ or "err" in mo:
@@ -929,21 +964,30 @@ def compare(case, io_, mo, mode):
     m = mo["ok"]
     if op == "c18_render":
         return None if io_["text"] == m["text"] else f"csv.writer {io_['text']!r} vs Spec.Csv.render {m['text']!r}"
-    if op in ("c18_to_csv", "c18_to_csv_env"):
-        if io_["text"] != m["text"]:
-            return f"file {io_['text']!r} vs model {m['text']!r}"
-        if std_parse(io_["text"]) != m["std"]:
-            return f"csv.reader {std_parse(io_['text'])} vs Spec.Csv.parse .std {m['std']}"
-        ri = io_.get("reimport")
-        if ri is not None:
-            if "err" in ri:
-                return f"importer raised {ri['err']}; model parses {m['reimport']}"
-            body = m["reimport"][1:]
-            ncol = len(ri["cols"])
-            mcols = [[r[j] if j < len(r) else None for r in body] for j in range(ncol)]
-            if any(len(r) != ncol for r in body) or mcols != ri["cols"]:
-                return f"importer read {ri['cols']} vs Spec.Csv.parse .exetera {body}"
-        return None
+    if op == "c18_record":
+        return None if io_["text"] == m["text"] else f"_csv_record {io_['text']!r} vs Export.csvRecord {m['text']!r}"
+    return None
+
+
+def compare_csv(io_, mo):
+    if "err" in io_ and "err" in mo:
+        return None if io_["err"] == mo["err"] else f"errors differ: impl {io_['err']} ({io_.get('msg', '')[:80]}) model {mo['err']}"
+    if "err" in io_ or "err" in mo:
+        return f"impl={json.dumps(io_)[:200]} model={json.dumps({k: v for k, v in mo.items() if k != 'as_found'})[:200]}"
+    m = mo["ok"]
+    if io_["text"] != m["text"]:
+        return f"file {io_['text']!r} vs model {m['text']!r}"
+    if std_parse(io_["text"]) != m["std"]:
+        return f"csv.reader {std_parse(io_['text'])} vs Spec.Csv.parse .std {m['std']}"
+    ri = io_.get("reimport")
+    if ri is not None:
+        if "err" in ri:
+            return f"importer raised {ri['err']}; model parses {m['reimport']}"
+        body = m["reimport"][1:]
+        ncol = len(ri["cols"])
+        mcols = [[r[j] if j < len(r) else None for r in body] for j in range(ncol)]
+        if any(len(r) != ncol for r in body) or mcols != ri["cols"]:
+            return f"importer read {ri['cols']} vs Spec.Csv.parse .exetera {body}"
     return None
 
 
@@ -958,19 +1002,23 @@ def compare_pandas(io_, mo):
     return None
 
 
-_NC18B = []
+_OPEN = {}
+
+
+def finding_open(fid):
+    if not _OPEN:
+        from checks import lib
+        _OPEN.update({f["id"]: f["status"] == "open" for f in lib.load_findings("C18")})
+    return _OPEN.get(fid, False)
 
 
 def nc18b_open():
-    if not _NC18B:
-        from checks import lib
-        _NC18B.append(any(f["id"] == "NC18b" and f["status"] == "open" for f in lib.load_findings("C18")))
-    return _NC18B[0]
+    return finding_open("NC18b")
 
 
 def nontrivial(case, mo):
     op = case["op"]
-    if op in ("c18_render", "c18_parse"):
+    if op in ("c18_render", "c18_parse", "c18_record"):
         return True
     if mo is None or "ok" not in mo:
         return False
@@ -986,7 +1034,7 @@ def nontrivial(case, mo):
 def classify(case, mo):
     op = case["op"]
     tags = [op]
-    if op in ("c18_render", "c18_parse"):
+    if op in ("c18_render", "c18_parse", "c18_record"):
         return tags
     if mo is not None and "err" in mo:
         tags.append("err:" + mo["err"])
